@@ -312,3 +312,34 @@ Theorem C15_event_order_stable_under_subdivision :
   forall a b, mapped NQ (Divide.sq_st s) a -> mapped NQ (Divide.sq_st s) b ->
   cmp_events (Divide.sq_st s') a b = cmp_events (Divide.sq_st s) a b.
 Proof. exact divide_keeps_event_order. Qed.
+
+(** ... the intersection step (all arms: edge-type updates and divisions strictly inside) and the
+    flag computation keep it too, and so does the whole sweep: the order among the events that
+    [fill_queue] created is the same in the store the sweep returns *)
+From GB Require Import StepOrderStable FillQueue Subdivide Coverage.
+Theorem C15_step_keeps_event_order :
+  forall (edges : list edge) (cfg : Outcome.config) (s : Divide.sq NQ) (se1 se2 : eid),
+  sqinv NQ s -> einv2 edges (Divide.sq_st s) -> mapped NQ (Divide.sq_st s) se1 -> mapped NQ (Divide.sq_st s) se2 ->
+  e_left (getE (Divide.sq_st s) se1) = true -> e_left (getE (Divide.sq_st s) se2) = true ->
+  match Divide.possible_intersection cfg s se1 se2 with
+  | Outcome.Ok (s', _) =>
+      einv2 edges (Divide.sq_st s') /\
+      (forall k, mapped NQ (Divide.sq_st s) k -> e_left (getE (Divide.sq_st s') k) = e_left (getE (Divide.sq_st s) k)) /\
+      (forall a b, mapped NQ (Divide.sq_st s) a -> mapped NQ (Divide.sq_st s) b ->
+         cmp_events (Divide.sq_st s') a b = cmp_events (Divide.sq_st s) a b)
+  | _ => True
+  end.
+Proof. exact possible_intersection_pe5. Qed.
+
+Theorem C15_flag_computation_keeps_event_order :
+  forall (cfg : Outcome.config) (st : store NQ) ev mp op a b,
+  cmp_events (Fields.compute_fields cfg st ev mp op) a b = cmp_events st a b.
+Proof. exact compute_fields_cmp. Qed.
+
+Theorem C15_sweep_keeps_event_order :
+  forall cfg fuel (A B : list (polygon NQ)) op (st : store NQ) (sorted : list eid) (n : nat),
+  (forall P, In P A -> finite_poly P) -> (forall P, In P B -> finite_poly P) ->
+  subdivide cfg fuel (fill_queue A B op) op = Outcome.Ok (st, sorted, n) ->
+  forall a b, mapped NQ (f_st (fill_queue A B op)) a -> mapped NQ (f_st (fill_queue A B op)) b ->
+  cmp_events st a b = cmp_events (f_st (fill_queue A B op)) a b.
+Proof. exact subdivide_keeps_event_order. Qed.
